@@ -1586,7 +1586,7 @@ impl Server {
             },
             "EVALSHA" => {
                 // EVALSHA needs script cache access
-                self.handle_evalsha_command(parts)
+                self.handle_evalsha_command(parts, db)
             },
             "COMMAND" => {
                 // Redis introspection command for client compatibility
@@ -3396,7 +3396,7 @@ impl Server {
 
 
     /// Handle EVALSHA command with global script cache
-    fn handle_evalsha_command(&self, parts: &[RespFrame]) -> Result<RespFrame> {
+    fn handle_evalsha_command(&self, parts: &[RespFrame], db: usize) -> Result<RespFrame> {
         if parts.len() < 3 {
             return Ok(RespFrame::error("ERR wrong number of arguments for 'evalsha' command"));
         }
@@ -3426,8 +3426,8 @@ impl Server {
         ];
         eval_parts.extend_from_slice(&parts[2..]);
         
-        // Execute as EVAL
-        crate::storage::commands::lua::handle_eval(&self.storage, &eval_parts)
+        // Execute as EVAL on the connection's selected database
+        crate::storage::commands::lua::handle_eval_with_db(&self.storage, &eval_parts, db)
     }
     
     /// Handle SCRIPT command with global script cache
